@@ -18,7 +18,8 @@ RULE = ('(values) generated potential (HardSphere, Exponential, LennardJones cut
         '(system) generated 1-3 type Systems through createPRISM: closure.potential*kT = formula at sigma = explicit value or mean '
         'diameter, the System\'s own potential objects untouched, and the contact rule: a grid point within 1e-6 of sigma carries the '
         'overlap value for HS/HCLJ/Exponential, for every pair alike. (contact-scan) exhaustive sigma = m*dr, m=1..400, 10 decimal '
-        'spacings, sigma written as product / decimal literal / mean of two diameters. Non-trivial = grid points on both sides of '
+        'spacings, sigma written as product / decimal literal / mean of two diameters. (reuse) one potential object with sigma re-assigned and '
+        'other grids evaluated between calls equals a fresh object every time. Non-trivial = grid points on both sides of '
         'sigma (values) / at least one on-grid sigma (system); distinct = spec hash.')
 ASSUMPTIONS = ['grid points in the open band (sigma, sigma+1e-6) are judged only by the contact rule, and only for Systems '
                '(a bare potential has no notion of "the grid"; the suite pins r>sigma literally for bare potentials)',
@@ -367,4 +368,46 @@ class ContactScan(Sub):
         return out
 
 
-SUBS = [Values(), SystemLevel(), ContactScan()]
+class Reuse(Sub):
+    name = 'reuse'
+    doc = 'one potential object re-used: sigma re-assigned (as createPRISM does) and other grids evaluated between calls; every call must equal a fresh object'
+    budget = {'quick': 600, 'thorough': 32000}
+
+    def strategy(self, tier):
+        base = values_spec()
+        step = st.fixed_dictionaries({'grid': base.map(lambda s: s['grid']), 'sigma': base.map(lambda s: s['sigma']), 'same_grid': st.booleans()})
+        return st.sampled_from(NAMES).flatmap(lambda name: st.fixed_dictionaries({
+            'name': st.just(name), 'p': params_strategy(name), 'steps': st.lists(step, min_size=2, max_size=4)}))
+
+    def check(self, spec):
+        out = Outcome()
+        sig = PID + '/reuse/'
+        name = spec['name']
+        pot = None
+        r_prev = None
+        changed = False
+        for i, stp in enumerate(spec['steps']):
+            r = r_prev if (stp['same_grid'] and r_prev is not None) else grid_of(stp['grid'])
+            sigma = sigma_of(stp['sigma'], r)
+            p = resolve(name, spec['p'], sigma_of(spec['steps'][0]['sigma'], grid_of(spec['steps'][0]['grid'])))
+            if pot is None:
+                pot = make_potential(name, p, sigma)
+            else:
+                if pot.sigma != sigma:
+                    changed = True
+                pot.sigma = sigma
+            fresh = make_potential(name, p, sigma)
+            with np.errstate(all='ignore'):
+                u = np.asarray(pot.calculate(r.copy()))
+                uf = np.asarray(fresh.calculate(r.copy()))
+            if u.shape != uf.shape or not np.array_equal(u, uf, equal_nan=True):
+                out.fail(sig + name + '/result-depends-on-earlier-calls', '%s: call %d on a re-used potential object (sigma re-assigned / other grid) differs from a fresh '
+                         'object with the same parameters' % (name, i + 1), step=i)
+                break
+            r_prev = r
+        out.nontrivial = changed
+        out.label('pot=' + name, 'sigma-reassigned' if changed else 'sigma-kept')
+        return out
+
+
+SUBS = [Values(), SystemLevel(), ContactScan(), Reuse()]
